@@ -129,8 +129,9 @@ def node_swap(H, nid1, nid2, id_temp=-1, order=None):
                 f"There is no hyperedge of order {order} is this hypergraph."
             )
 
-    # make sure id_temps does not exist yet
-    while id_temp in H.edges:
+    # make sure id_temp is not a node of the hypergraph: it stands in for nid1
+    # inside the member sets (a temporary *node* id, not an edge id)
+    while id_temp in H.nodes:
         id_temp -= 1
 
     # get edges of given order
